@@ -360,6 +360,7 @@ func c01cExec(c *Ctx, cs c01cCase, paths []schemaPath) {
 	er.SetPolicy(zsimrt.OrdSorted)
 	fs := Materialise(L)
 	out := RunLoad(L, fs, "", true)
+	c.Trace(fmt.Sprintf("%+v:%s:%s", cs, out.Kind(), out.PanicAt))
 	c.Count("class-C", 1)
 	c.Count("outcome-"+out.Kind(), 1)
 	c.Count("placement-"+cs.Placement, 1)
